@@ -299,6 +299,7 @@ func (x *Evaluator) applyElemRewrites(v ssa.Value, l ListV, e *env, c *evalCtx) 
 		return l
 	}
 	var stored []Tmpl
+	conditional, condKey := false, ""
 	for _, r := range *refs {
 		ia, ok := r.(*ssa.IndexAddr)
 		if !ok || ia.X != v || ia.Parent() != e.fn {
@@ -319,10 +320,50 @@ func (x *Evaluator) applyElemRewrites(v ssa.Value, l ListV, e *env, c *evalCtx) 
 			e.memo = saved
 			delete(e.rewriting, v)
 			stored = append(stored, asTmpl(val))
+			// a store that is made in some rounds of the rewriting loop only (under a test) leaves
+			// the other elements as they were
+			if hdr := naturalLoops(e.fn)[st.Block()]; hdr != nil {
+				body := loopBody(hdr)
+				for _, p := range hdr.Preds {
+					if body[p] && !(st.Block() == p || st.Block().Dominates(p)) {
+						conditional = true
+					}
+				}
+				if conditional && condKey == "" {
+					for d := st.Block(); d != nil && d != hdr; d = d.Idom() {
+						par := d.Idom()
+						if par == nil || !body[par] {
+							break
+						}
+						if cnd, _ := condOf(par); cnd != nil && len(par.Succs) == 2 {
+							e.rewriting[v] = true
+							saved2 := e.memo
+							e.memo = map[ssa.Value]Val{}
+							cv := x.evalC(cnd, e, &evalCtx{busy: map[ssa.Value]bool{}})
+							e.memo = saved2
+							delete(e.rewriting, v)
+							if bv, ok := cv.(BoolV); ok && bv.Const == nil {
+								dsc := bv.Desc
+								if dsc == "" {
+									dsc = cnd.Name()
+								}
+								if bv.Data != "" {
+									dsc = "data:" + dsc
+								}
+								condKey = "if:" + dsc
+								break
+							}
+						}
+					}
+				}
+			}
 		}
 	}
 	if len(stored) == 0 {
 		return l
+	}
+	if conditional && l.Elem != nil {
+		return ListV{Elem: strV(mkAlt(condKey, append(stored, asTmpl(l.Elem))...)), Origin: l.Origin, ID: l.ID}
 	}
 	return ListV{Elem: strV(mkAlt("", stored...)), Origin: l.Origin, ID: l.ID}
 }
